@@ -4,6 +4,7 @@ import (
 	"context"
 	"fmt"
 	"math/rand"
+	"sync"
 
 	apierrors "k8s.io/apimachinery/pkg/api/errors"
 	"k8s.io/apimachinery/pkg/apis/meta/v1/unstructured"
@@ -11,6 +12,7 @@ import (
 	"k8s.io/apimachinery/pkg/runtime/schema"
 	"sigs.k8s.io/cli-utils/pkg/kstatus/polling/event"
 	"sigs.k8s.io/cli-utils/pkg/kstatus/polling/statusreaders"
+	"sigs.k8s.io/cli-utils/pkg/kstatus/status"
 	"sigs.k8s.io/cli-utils/pkg/object"
 	"sigs.k8s.io/controller-runtime/pkg/client"
 )
@@ -37,6 +39,13 @@ type snapshot struct {
 	getErr  map[object.ObjMetadata]*merr
 	listErr map[string]*merr // by kind
 }
+
+// realFailures: observations on the real status readers that are not part of the engine model's
+// input (the reading must carry the object that was read).
+var (
+	realMu       sync.Mutex
+	realFailures []string
+)
 
 type realEnv struct {
 	*env
@@ -242,6 +251,7 @@ func runReal(r *rand.Rand, maxPolls int) (*scenario, observation) {
 	depA := genDep(r, []string{"r1", "r2"}, []string{"p1", "p2"})
 	depB := genDep(r, []string{"r3"}, []string{"p3", "p4"})
 	cmGen := int64(1)
+	cmBroken := r.Intn(3) == 0
 	ssReady := int64(0)
 	ssPods := []podSt{{name: "q1", phase: 1}}
 	np := 1 + r.Intn(maxPolls)
@@ -269,7 +279,13 @@ func runReal(r *rand.Rand, maxPolls int) (*scenario, observation) {
 		s.objs = append(s.objs, depA.objects("a")...)
 		s.objs = append(s.objs, depB.objects("b")...)
 		if r.Intn(8) > 0 {
-			s.objs = append(s.objs, mkObj("v1", "ConfigMap", "ns1", "a", cmGen, nil))
+			cm := mkObj("v1", "ConfigMap", "ns1", "a", cmGen, nil)
+			if cmBroken {
+				// status.Compute fails on it (conditions is not a list): the reading is Unknown with an
+				// error, and must still carry the object so that a generation change is seen
+				cm.Object["status"] = map[string]interface{}{"conditions": map[string]interface{}{"x": "y"}}
+			}
+			s.objs = append(s.objs, cm)
 		}
 		s.objs = append(s.objs, mkObj("v1", "ConfigMap", "ns2", "a", 0, nil))
 		ss := mkObj("apps/v1", "StatefulSet", "ns2", "s", 1, nil)
@@ -332,6 +348,19 @@ func runReal(r *rand.Rand, maxPolls int) (*scenario, observation) {
 		}
 		if rs == nil {
 			return nil, fmt.Errorf("e997")
+		}
+		if round >= 0 && round < len(snaps) && snaps[round].getErr[id] == nil && rs.Status != status.NotFoundStatus {
+			for _, o := range snaps[round].objs {
+				if object.UnstructuredToObjMetadata(o) == id {
+					if rs.Resource == nil || rs.Resource.GetGeneration() != o.GetGeneration() {
+						realMu.Lock()
+						realFailures = append(realFailures, fmt.Sprintf("status reader returned a reading for %s without the object it read (generation %d lost): status=%s error=%v",
+							id, o.GetGeneration(), rs.Status, rs.Error))
+						realMu.Unlock()
+					}
+					break
+				}
+			}
 		}
 		m := fromEvent(rs)
 		p.reads[i] = reading{rs: &m}
